@@ -145,6 +145,14 @@ pub struct ValidationError {
     pub position: Position,
 }
 
+impl ValidationError {
+    /// The same error, reported at `position` instead.
+    fn at(mut self, position: Position) -> Self {
+        self.position = position;
+        self
+    }
+}
+
 impl fmt::Display for ValidationError {
     fn fmt(&self, f: &mut fmt::Formatter<'_>) -> fmt::Result {
         write!(f, "{} at {}", self.kind, self.position)
@@ -469,7 +477,15 @@ impl<'a> Validator<'a> {
     }
 
     /// Validate an escape sequence.
+    ///
+    /// Every error raised for a `\uXXXX` escape (bad or missing hex digit,
+    /// unpaired surrogate) is reported at the backslash that starts the
+    /// offending escape. Surrogate pairing can only be judged once all four hex
+    /// digits are read, by which time the cursor is past the byte that made the
+    /// text invalid (`\uDC00` is already dead at the `C`); the start of the
+    /// escape is the one position that is never later than that byte.
     fn validate_escape(&mut self) -> Result<(), ValidationError> {
+        let escape_start = self.position();
         self.advance(); // consume backslash
 
         match self.peek() {
@@ -479,35 +495,36 @@ impl<'a> Validator<'a> {
             }
             Some(b'u') => {
                 self.advance();
-                let high = self.validate_unicode_escape()?;
+                let high = self
+                    .validate_unicode_escape()
+                    .map_err(|e| e.at(escape_start))?;
+                let unpaired = ValidationError {
+                    kind: ValidationErrorKind::UnpairedSurrogate { codepoint: high },
+                    position: escape_start,
+                };
 
                 // Check for surrogate pair
                 if (0xD800..=0xDBFF).contains(&high) {
                     // High surrogate - must be followed by \uXXXX low surrogate
+                    let low_start = self.position();
                     if self.peek() != Some(b'\\') {
-                        return Err(
-                            self.error(ValidationErrorKind::UnpairedSurrogate { codepoint: high })
-                        );
+                        return Err(unpaired);
                     }
                     self.advance();
                     if self.peek() != Some(b'u') {
-                        return Err(
-                            self.error(ValidationErrorKind::UnpairedSurrogate { codepoint: high })
-                        );
+                        return Err(unpaired);
                     }
                     self.advance();
 
-                    let low = self.validate_unicode_escape()?;
+                    let low = self
+                        .validate_unicode_escape()
+                        .map_err(|e| e.at(low_start))?;
                     if !(0xDC00..=0xDFFF).contains(&low) {
-                        return Err(
-                            self.error(ValidationErrorKind::UnpairedSurrogate { codepoint: high })
-                        );
+                        return Err(unpaired);
                     }
                 } else if (0xDC00..=0xDFFF).contains(&high) {
                     // Lone low surrogate
-                    return Err(
-                        self.error(ValidationErrorKind::UnpairedSurrogate { codepoint: high })
-                    );
+                    return Err(unpaired);
                 }
 
                 Ok(())
